@@ -422,8 +422,28 @@ def weighted(rng, table):
     return rng.choices(names, weights=[table[n] for n in names])[0]
 
 
+def gen_mantissa_ops(rng, n):
+    """single bit patterns for get_mantissa: doubles in [1,2) (random, boundaries, single bits) and
+    arbitrary patterns (other exponents, sign, inf/nan, subnormal)"""
+    pats = [ONE, ONE | MMAX, ONE | 1, ONE | (1 << 51), 0, 1 << 63, 0x7FF << 52, (0x7FF << 52) | 1, 1, (0x400 << 52),
+            (0x3FE << 52) | MMAX]
+    pats += [ONE | (1 << b) for b in range(52)]
+    while len(pats) < n:
+        r = rng.random()
+        if r < 0.6:
+            pats.append(ONE | rng.getrandbits(52))
+        elif r < 0.8:
+            pats.append(rng.getrandbits(64))
+        else:
+            pats.append((rng.choice([0x3FE, 0x400, 0x3FF, 0, 0x7FE, 1]) << 52) | rng.getrandbits(52) | (rng.getrandbits(1) << 63))
+    return ["m %d" % p for p in pats[:max(n, 63)]]
+
+
 def gen_ops(rng, n_o, n_i, n_e):
     ops, cats = ["widths"], ["widths"]
+    for l in gen_mantissa_ops(rng, max(63, n_e)):
+        ops.append(l)
+        cats.append("m:pattern")
     for _ in range(n_o):
         c = weighted(rng, ORIENT_W)
         pts = ORIENT_GEN[c](rng)
@@ -541,9 +561,13 @@ def run(ctx):
         "own build does not enable -ffast-math)",
         "the predicate theorems are about coordinates in [1,2); for the rescaling that establishes this (NewVoronoiBox tetrahedron, "
         "NewVoronoiGrid constructor) Lean proves the real-arithmetic statement (rescale_in_range, rescale_box_in_range: every axis "
-        "with its own padded extent maps into [1,2), monotone); that the ROUNDED evaluation stays in [1,2) is not proved: it is "
-        "checked on the implementation for generated simulation boxes (stream 'rescale': values stored by the real constructor "
-        "bit-identical to the Lean Float model of the same formulas, oracle rescaled-coordinate-outside-[1,2) / rescaling-not-monotone); "
+        "with its own padded extent maps into [1,2), monotone, wall copies commute with the map) AND the rounded statement "
+        "(rescale_rounded_in_range, rescaled_tetra_in_range, rescaled_box_in_range: for every monotone rounding function with relative "
+        "error <= 2^-53 and fl 1 = 1, the constant 1 + 4 DBL_EPSILON keeps every rescaled coordinate in [1,2)); its premises are evaluated "
+        "on the real code for every generated box (oracle rescale-premise-violated); the rounded wall copies are only checked "
+        "(bit-identical to the Lean Float model, oracle rescaled-coordinate-outside-[1,2) / rescaling-not-monotone); "
+        "the link value <-> mantissa is proved for every double in [1,2) against the shared decoder Util.ratOfBits (get_mantissa_value) "
+        "and get_mantissa itself is compared on single patterns; "
         "outside [1,2) only the exact routines (mantissa field only) are compared",
     ]
     ok = ctx.obligations("CMacVerif.Props.C17", ["drv_c17"])
@@ -566,10 +590,12 @@ def run(ctx):
         "real exact and adaptive routine and by the Lean model, and on the implementation additionally under all transpositions "
         "(must negate) and all 3-cycles (must keep) of the points; distinct = different op line; non-trivial = the adaptive routine's "
         "filter was undecided (fallback to exact arithmetic) or the configuration is exactly degenerate; "
-        "second stream 'rescale' (never counted as non-trivial): simulation boxes (anchor with independent per-axis offsets 0, +-1e-3..1e6, "
+        "single patterns for get_mantissa (every single mantissa bit, boundaries of [1,2), other exponents, sign, inf/nan/subnormal; oracle: value = "
+        "1 + mantissa/2^52 for doubles in [1,2); never non-trivial); second stream 'rescale' (never counted as non-trivial): simulation boxes (anchor with independent per-axis offsets 0, +-1e-3..1e6, "
         "dyadic / short decimal / generic, sides with independent per-axis factors, generators on lower faces and corners, next to the "
-        "upper faces and inside) for which the real NewVoronoiGrid constructor is run; the stored rescaled box, tetrahedron and generators "
-        "must equal the Lean Float model bit for bit, every coordinate handed to the predicates must lie in [1,2), the map must be monotone per axis")
+        "upper faces and inside) for which the real NewVoronoiGrid constructor is run; the stored rescaled box, tetrahedron, generators "
+        "and the six wall copies of every generator must equal the Lean Float model bit for bit, the premises of the Lean in-range theorems "
+        "(tetrahedron non-degenerate, box and generators between its minima and maxima) are evaluated on the real tetrahedron, every coordinate handed to the predicates must lie in [1,2), the map must be monotone per axis")
     ctx.cov["tolerance"] = "none: the observable is the returned sign, answers must be identical"
     if not ok:
         return 0
@@ -578,7 +604,7 @@ def run(ctx):
                                          oracle_key=oracle_key)
     # second stream, implementation-level oracle only: the precondition "coordinates in [1,2)" as the
     # real NewVoronoiGrid / NewVoronoiBox establish it for the simulation box
-    boxes = gen_boxes(ctx.rng, ctx.budget(3000, 60000))
+    boxes = gen_boxes(ctx.rng, ctx.budget(3000, 20000))
     nb, bimpl, bmodel, borc = ctx.correspond("rescale", h, vlib.driver("drv_c17"), boxes, oracle_key=oracle_key)
     ctx.count(len(boxes))
     ctx.cov["rescale_boxes"] = len(boxes)
@@ -600,11 +626,14 @@ def run(ctx):
             ctx.branch(kind + ":" + br)
         elif kind in ("oe", "ie"):
             ctx.branch(kind + ":sign" + ml.split()[-1])
+        elif kind == "m":
+            b = int(op.split()[1])
+            ctx.branch("m:in[1,2)" if (b >> 52) == 0x3FF else "m:other-exponent-or-sign")
         f = fam.setdefault(cat, {"cases": 0, "fallback": 0})
         f["cases"] += 1
         if br.startswith("fallback"):
             f["fallback"] += 1
-        ctx.distinct(op, nontrivial=br.startswith("fallback") or ml.split()[1:2] == ["0"])
+        ctx.distinct(op, nontrivial=kind != "m" and (br.startswith("fallback") or ml.split()[1:2] == ["0"]))
     ctx.cov["bit_exact_rate"] = same / max(1, len(ops))
     ctx.cov["families"] = fam
     hist = ctx.cov["branch_histogram"]
